@@ -19,4 +19,4 @@ fi
 cp "$ROOT/known_findings.json" "$VR/"
 "$ROOT/bin/verifchk" -property ALL -repo "$WT" -root "$VR" > "$VR/all.out" 2>&1 || true
 grep "^VIOLATION" "$VR/all.out" | sed 's/ replay=.*//' | tr '\n' ' '; echo
-grep "^FINDING\|^UNDECIDED" "$VR/all.out" | cut -c1-260
+grep "^FINDING\|^UNDECIDED" "$VR/all.out" | sed "s/ at .*//" | cut -c1-200
